@@ -27,6 +27,7 @@ type task struct {
 	lockDepth int
 	prio      int
 	adopted   bool // goroutine started by real code; no exit hook, so it never counts as unfinished
+	spin      bool // failed a simulated TryLock; not worth scheduling until some lock is released
 }
 
 // Sched is the seeded scheduler of one bubble: real goroutines park at yield
@@ -297,6 +298,15 @@ func (s *Sched) abort() {
 
 func (s *Sched) choose(parked []*task, step int) *task {
 	sort.Slice(parked, func(i, j int) bool { return parked[i].id < parked[j].id })
+	var ready []*task
+	for _, t := range parked {
+		if !t.spin {
+			ready = append(ready, t)
+		}
+	}
+	if len(ready) > 0 && len(ready) < len(parked) {
+		parked = ready // tasks waiting for a simulated mutex run only when nothing else can
+	}
 	T := s.r.T
 	n := len(parked)
 	switch s.strategy {
@@ -513,4 +523,91 @@ func GOMAXPROCS(real int, n int) int {
 		return r.SimProcs
 	}
 	return real
+}
+
+// MutexLock is the simulated form of x.Lock() in instrumented code: a TryLock
+// loop over yield points. No instrumented task ever blocks inside
+// sync.Mutex.Lock (which is not durably blocking in a synctest bubble), so
+// tasks may park while holding a mutex and the scheduler can interleave
+// lock-free code of other tasks with a critical section.
+func MutexLock(l interface {
+	Lock()
+	TryLock() bool
+}, site string) {
+	r := cur.Load()
+	if RaceMode || r == nil || r.sched == nil || r.sched.fast.Load() {
+		if RaceMode {
+			racePerturb()
+		}
+		l.Lock()
+		return
+	}
+	s := r.sched
+	t := s.current(site)
+	for i := 0; ; i++ {
+		s.park(t, site)
+		if s.fast.Load() {
+			l.Lock()
+			return
+		}
+		if l.TryLock() {
+			s.mu.Lock()
+			t.spin = false
+			s.mu.Unlock()
+			return
+		}
+		s.mu.Lock()
+		t.spin = true
+		s.mu.Unlock()
+		r.Hit("simulated mutex contended")
+	}
+}
+
+// MutexRLock is MutexLock for read locks.
+func MutexRLock(l interface {
+	RLock()
+	TryRLock() bool
+}, site string) {
+	r := cur.Load()
+	if RaceMode || r == nil || r.sched == nil || r.sched.fast.Load() {
+		l.RLock()
+		return
+	}
+	s := r.sched
+	t := s.current(site)
+	for {
+		s.park(t, site)
+		if s.fast.Load() {
+			l.RLock()
+			return
+		}
+		if l.TryRLock() {
+			s.mu.Lock()
+			t.spin = false
+			s.mu.Unlock()
+			return
+		}
+		s.mu.Lock()
+		t.spin = true
+		s.mu.Unlock()
+	}
+}
+
+// MutexUnlocked is called after every Unlock/RUnlock in instrumented code:
+// tasks that failed a simulated TryLock become schedulable again.
+func MutexUnlocked() {
+	r := cur.Load()
+	if r == nil || r.sched == nil {
+		return
+	}
+	s := r.sched
+	me := s.lookup()
+	s.mu.Lock()
+	if me != nil && me.lockDepth > 0 {
+		me.lockDepth-- // pairs with LockEnter of a lock call that could not be simulated
+	}
+	for _, t := range s.tasks {
+		t.spin = false
+	}
+	s.mu.Unlock()
 }
